@@ -466,17 +466,24 @@ def run_origin_sequence(rec, case):
         for step in range(r.randint(3, 8)):
             host = r.choice(hosts)
             origin = 'http://' + r.choice(hosts)
+            # a third of the requests come through a proxy that names the
+            # host it was reached under (X-Forwarded-Host only, so that the
+            # scheme conventions of known findings K6 / K11 stay out of it)
+            xfh = r.choice(hosts) if r.random() < 0.35 else None
             if cfgname == 'callable':
                 state['ok'] = set(r.sample(['http://' + x for x in hosts],
                                            r.randint(0, 2)))
                 ok = origin in state['ok']
             else:
-                ok = origin == 'http://' + host
+                ok = origin in ('http://' + host,
+                                ('http://' + xfh) if xfh else None)
             sim.host = host
             kind = r.choice(['open', 'open-ws', 'poll'])
             if kind == 'poll' and h is None:
                 kind = 'open'
             hd = {'Origin': origin}
+            if xfh:
+                hd['X-Forwarded-Host'] = xfh
             ws = None
             n0, tbl = len(sim.events), sim.table_sids()
             if kind == 'open':
@@ -490,13 +497,14 @@ def run_origin_sequence(rec, case):
                 sim.quiesce()
                 t = sim.poll(h, headers=hd)
             sim.quiesce()
-            log.append((kind, host, origin, ok, t.status))
+            log.append((kind, host, xfh, origin, ok, t.status))
             refused = t.done and (t.code == 400 or (
                 ws is not None and srv == 'A' and not ws.accepted and
                 ws.server_closed))
-            desc = ('request #%d (%s, Host %s, Origin %s) of the sequence %r '
+            desc = ('request #%d (%s, Host %s, X-Forwarded-Host %s, Origin %s) '
+                    'of the sequence %r '
                     'cors_allowed_origins=%s server=%s' % (
-                        step + 1, kind, host, origin, log, cfgname, srv))
+                        step + 1, kind, host, xfh, origin, log, cfgname, srv))
             if not ok:
                 rec.count('must_refuse')
                 if not refused or len(sim.events) != n0 or \
